@@ -14,8 +14,12 @@ import (
 var sitemapMarker = []byte("sitemaps.org/schemas/sitemap/")
 
 // check if the Content-Type or MIME-type indicates XML
-// exclude sitemap and SVG
+// exclude sitemap, SVG and XHTML (a web page, the HTML extractors handle it)
 func IsXML(URL *models.URL) bool {
+	if isContentType(URL.GetResponse().Header.Get("Content-Type"), "application/xhtml+xml") {
+		return false
+	}
+
 	return (isContentType(URL.GetResponse().Header.Get("Content-Type"), "xml") || strings.Contains(URL.GetMIMEType().String(), "xml")) && !IsSitemapXML(URL) && !URL.GetMIMEType().Is("image/svg+xml")
 }
 
